@@ -46,12 +46,10 @@ Fails(r) ==
          \* a request frame the session did NOT answer with Invalid Message / did execute: it must not contradict itself
          \* and its items must lie inside the structures that hold them (a value that runs past the end of its structure,
          \* or a structure whose content is cut inside an item header, cannot be decoded by anybody)
-         THEN (IF p.ok THEN RequestCountFails(p.tree)
-               \* (primitive values only: the library reads a STRUCTURE's announced length from what is there, so a structure
-               \* that announces too much is decoded from the bytes present - a leniency the property does not cover)
-               \* (nor fixed-size primitives, whose length field the library does not consult)
-               ELSE IF p.why = "variable-length value runs past the enclosing length"
-                    THEN {"a text / byte string / big integer of the request runs past its enclosing structure"} ELSE {})
+         \* (since the session verifies the framing of a request before decoding it, this is the whole TTLV definition: a
+         \* structure that announces more than it holds, a fixed-size item with another length, bytes beyond the last item
+         \* are all "cannot be decoded")
+         THEN (IF p.ok THEN RequestCountFails(p.tree) ELSE {"TTLV: " \o p.why})
     ELSE IF ~p.ok THEN {"TTLV: " \o p.why}
     ELSE IF r.kind = "response"
          THEN EnvelopeFails(p.tree)
